@@ -29,4 +29,9 @@ T_ClosedRefuses(o, kind) ==
        [] o[i].op = "conn" -> o[i].res = "n"
        [] o[i].op = "close" -> (kind = "inproc" \/ o[i].res = "err")
        [] OTHER -> TRUE
+(* what both ends of a websocket connection report as its encryption follows the URL scheme:  *)
+(* attr(side = "ws" | "wss", res = "cli:<e>,srv:<e>")                                        *)
+DialEnc(scheme) == IF scheme = "wss" THEN "tls" ELSE "none"
+T_EncryptionAgrees(o) ==
+  \A i \in TIdx(o) : o[i].op = "attr" => o[i].res = "cli:" \o DialEnc(o[i].side) \o ",srv:" \o DialEnc(o[i].side)
 =============================================================================
